@@ -2,7 +2,7 @@
     (Model/C16_Curves.v): what the correspondence computes with vm_compute over Q is the model on the images of the
     inputs under [Q2R] (exactly, for the piecewise-linear parts; as an enclosure, for square roots). *)
 From Coq Require Import QArith Qreals Reals ZArith List Bool Arith Lia Lra Psatz.
-From CB Require Import Base.Vec3 Model.C16_Curves Model.C16_CurvesQ Proofs.C16_Curves.
+From CB Require Import Base.Vec3 Model.C16_Curves Model.C16_CurvesQ Proofs.C16_Curves Proofs.C16_Length Proofs.C16_Edge.
 Import ListNotations.
 Open Scope R_scope.
 
@@ -148,7 +148,7 @@ Qed.
 
 (** ** list functions commute with the embedding (the discrete curve is evaluated on rational points as it is) *)
 Lemma slice_map {A B} (g : A -> B) l a b : map g (slice l a b) = slice (map g l) a b.
-Proof. unfold slice. rewrite firstn_map, skipn_map. reflexivity. Qed.
+Proof. unfold slice. rewrite skipn_map, firstn_map. reflexivity. Qed.
 
 Lemma dc_discretize_map {A B} (g : A -> B) l a b : map g (dc_discretize l a b) = dc_discretize (map g l) a b.
 Proof.
@@ -171,7 +171,7 @@ Lemma dc_edge_points_map {A B} (g : A -> B) l a b : map g (dc_edge_points l a b)
 Proof. unfold dc_edge_points. rewrite interior_map, dc_discretize_map. reflexivity. Qed.
 
 Lemma qdc_point_sound pts i : q2v (qdc_point pts i) = dc_point (map q2v pts) i.
-Proof. unfold qdc_point, dc_point. rewrite <- q2v_zero. apply map_nth. Qed.
+Proof. unfold qdc_point, dc_point. rewrite <- q2v_zero. symmetry. apply map_nth. Qed.
 
 (** ** linspace, line curve, linear interpolation *)
 Lemma qlin_at_sound a b n i : (2 <= n)%nat -> Q2R (qlin_at a b n i) = lin_at (Q2R a) (Q2R b) n i.
@@ -257,4 +257,218 @@ Proof.
   unfold qil_params, il_params. cbn [map]. f_equal. rewrite map_app. cbn [map]. f_equal.
   induction ts as [|t ts IH]; [reflexivity|]. cbn [filter map]. rewrite qbetween_sound.
   destruct (between (Q2R lo) (Q2R hi) (Q2R t)); cbn [map]; rewrite IH; reflexivity.
+Qed.
+
+(** ** argmin: distances are compared through their squares *)
+Lemma qargmin_aux_sound : forall ds i best bv,
+  0 <= Q2R bv -> Forall (fun d => 0 <= Q2R d) ds ->
+  argmin_aux (map (fun d => sqrt (Q2R d)) ds) i best (sqrt (Q2R bv)) = qargmin_aux ds i best bv.
+Proof.
+  induction ds as [|d ds IH]; intros i best bv Hb Hd; [reflexivity|].
+  inversion Hd as [|? ? Hd0 Hds]; subst. cbn [map argmin_aux qargmin_aux].
+  destruct (qlt_bool d bv) eqn:E; destruct (Rlt_dec (sqrt (Q2R d)) (sqrt (Q2R bv))) as [Hr|Hr].
+  - apply IH; assumption.
+  - exfalso. apply Hr. apply qlt_bool_iff in E. apply sqrt_lt_1_alt. lra.
+  - exfalso. apply sqrt_lt_0_alt in Hr. apply qlt_bool_iff in Hr. congruence.
+  - apply IH; assumption.
+Qed.
+
+Lemma qclosest_idx_sound pts q : dc_closest (map q2v pts) (q2v q) = qclosest_idx pts q.
+Proof.
+  unfold dc_closest, qclosest_idx, argmin, qargmin. rewrite map_map.
+  assert (Hd : forall a, dist (q2v a) (q2v q) = sqrt (Q2R (qd2 a q)))
+    by (intros a; unfold dist, norm; rewrite Q2R_qd2; reflexivity).
+  destruct pts as [|p pts]; [reflexivity|]. cbn [map].
+  rewrite Hd. rewrite (map_ext _ (fun a => sqrt (Q2R (qd2 a q)))) by exact Hd.
+  rewrite <- (map_map (fun a => qd2 a q) (fun d => sqrt (Q2R d))).
+  apply qargmin_aux_sound.
+  - rewrite Q2R_qd2. apply norm2_nonneg.
+  - apply Forall_forall. intros d Hin. apply in_map_iff in Hin. destruct Hin as (a & <- & _).
+    rewrite Q2R_qd2. apply norm2_nonneg.
+Qed.
+
+(** ** the minimiser monitor and the optimality certificates compare distances through enclosures *)
+Lemma qnot_farther_sound tol x q m2 :
+  qnot_farther tol x q m2 = true -> dist (q2v x) (q2v q) <= sqrt (Q2R m2) + Q2R tol.
+Proof.
+  unfold qnot_farther, qdist_hi, qsqrt_lo. intros H. apply Qle_bool_iff in H. apply Qle_Rle in H.
+  rewrite Q2R_plus in H. pose proof (qdist_encl_sound x q). pose proof (qsqrt_encl_sound m2). lra.
+Qed.
+
+(** ** the common-denominator fast path for long polylines *)
+Lemma plcm_spec a b : (Zpos a | Zpos (plcm a b))%Z /\ (Zpos b | Zpos (plcm a b))%Z.
+Proof.
+  unfold plcm.
+  assert (H : (0 < Z.lcm (Zpos a) (Zpos b))%Z).
+  { pose proof (Z.lcm_nonneg (Zpos a) (Zpos b)).
+    assert (Z.lcm (Zpos a) (Zpos b) <> 0%Z) by (intros E; apply Z.lcm_eq_0 in E; destruct E; discriminate).
+    lia. }
+  rewrite Z2Pos.id by exact H. split; [apply Z.divide_lcm_l|apply Z.divide_lcm_r].
+Qed.
+
+Definition dvd_v (D : positive) (v : qvec) : Prop :=
+  (Zpos (Qden (qx v)) | Zpos D)%Z /\ (Zpos (Qden (qy v)) | Zpos D)%Z /\ (Zpos (Qden (qz v)) | Zpos D)%Z.
+
+Lemma dvd_v_trans D D' v : (Zpos D | Zpos D')%Z -> dvd_v D v -> dvd_v D' v.
+Proof. intros H (A & B & C). repeat split; eapply Z.divide_trans; eauto. Qed.
+
+Lemma qv_den_spec v : dvd_v (qv_den v) v.
+Proof.
+  unfold qv_den, dvd_v.
+  destruct (plcm_spec (Qden (qx v)) (plcm (Qden (qy v)) (Qden (qz v)))) as [A B].
+  destruct (plcm_spec (Qden (qy v)) (Qden (qz v))) as [C E].
+  repeat split; [exact A|eapply Z.divide_trans; eauto|eapply Z.divide_trans; eauto].
+Qed.
+
+Lemma qcommon_den_spec l : Forall (dvd_v (qcommon_den l)) l.
+Proof.
+  induction l as [|v l IH]; constructor.
+  - change (qcommon_den (v :: l)) with (plcm (qv_den v) (qcommon_den l)).
+    apply (dvd_v_trans (qv_den v)); [exact (proj1 (plcm_spec _ _))|apply qv_den_spec].
+  - change (qcommon_den (v :: l)) with (plcm (qv_den v) (qcommon_den l)).
+    eapply Forall_impl; [|exact IH]. intros w. apply dvd_v_trans. exact (proj2 (plcm_spec _ _)).
+Qed.
+
+Lemma qscale_sound D c : (Zpos (Qden c) | Zpos D)%Z -> Q2R c = IZR (qscale D c) / IZR (Zpos D).
+Proof.
+  intros [m Hm]. unfold qscale, Q2R. rewrite Hm. rewrite Z.div_mul by discriminate.
+  assert (m <> 0)%Z by (intros ->; simpl in Hm; discriminate).
+  rewrite !mult_IZR. field. split; apply not_0_IZR; [discriminate|assumption].
+Qed.
+
+Definition z2v (v : zvec) : vec := (IZR (fst (fst v)), IZR (snd (fst v)), IZR (snd v)).
+
+Lemma qvscale_z_sound D v : dvd_v D v -> q2v v = vscale (/ IZR (Zpos D)) (z2v (qvscale_z D v)).
+Proof.
+  intros (A & B & C). unfold q2v, qvscale_z, z2v, vscale, vx, vy, vz. cbn [fst snd].
+  rewrite (qscale_sound D (qx v) A), (qscale_sound D (qy v) B), (qscale_sound D (qz v) C).
+  unfold Rdiv. f_equal; [f_equal|]; ring.
+Qed.
+
+Lemma zd2_sound a b : IZR (zd2 a b) = norm2 (vsub (z2v a) (z2v b)).
+Proof.
+  destruct a as [[a1 a2] a3], b as [[b1 b2] b3]. unfold zd2, z2v, norm2, dot, vsub, vx, vy, vz. cbn [fst snd].
+  rewrite !plus_IZR, !mult_IZR, !minus_IZR. ring.
+Qed.
+
+Lemma dist_scaled D a b : dvd_v D a -> dvd_v D b ->
+  dist (q2v a) (q2v b) = sqrt (IZR (zd2 (qvscale_z D a) (qvscale_z D b))) / IZR (Zpos D).
+Proof.
+  intros Ha Hb. rewrite (qvscale_z_sound D a Ha), (qvscale_z_sound D b Hb).
+  set (za := z2v (qvscale_z D a)). set (zb := z2v (qvscale_z D b)).
+  assert (HD : 0 < / IZR (Zpos D)) by (apply Rinv_0_lt_compat; apply IZR_lt; lia).
+  unfold dist.
+  replace (vsub (vscale (/ IZR (Zpos D)) za) (vscale (/ IZR (Zpos D)) zb)) with (vscale (/ IZR (Zpos D)) (vsub za zb)).
+  2:{ destruct za as [[x1 x2] x3], zb as [[y1 y2] y3]. apply vec_eq; cbv [vsub vscale vx vy vz fst snd]; ring. }
+  rewrite norm_scale. rewrite Rabs_pos_eq by lra. subst za zb. unfold norm. rewrite zd2_sound. unfold Rdiv. ring.
+Qed.
+
+Lemma zsqrt_encl n : (0 <= n)%Z ->
+  IZR (Z.sqrt (n * Zpos (zK * zK))) / IZR (Zpos zK) <= sqrt (IZR n)
+  <= (IZR (Z.sqrt (n * Zpos (zK * zK))) + 1) / IZR (Zpos zK).
+Proof.
+  intros Hn. set (N := (n * Zpos (zK * zK))%Z).
+  assert (HN : (0 <= N)%Z) by (unfold N; apply Z.mul_nonneg_nonneg; lia).
+  pose proof (Z.sqrt_spec N HN) as Hs. cbv zeta in Hs.
+  assert (Hs0 : (0 <= Z.sqrt N)%Z) by apply Z.sqrt_nonneg.
+  set (s := Z.sqrt N) in *.
+  destruct Hs as [Hs1 Hs2]. apply IZR_le in Hs1. apply IZR_lt in Hs2. apply IZR_le in Hs0.
+  rewrite mult_IZR in Hs1, Hs2. rewrite succ_IZR in Hs2.
+  unfold N in Hs1, Hs2. rewrite mult_IZR, Pos2Z.inj_mul, mult_IZR in Hs1, Hs2.
+  assert (Hk : 0 < IZR (Zpos zK)) by (apply IZR_lt; lia).
+  pose proof (encl_real (IZR n) 1 (IZR (Zpos zK)) (IZR s) ltac:(lra) Hk Hs0) as H.
+  rewrite !Rmult_1_r, !Rmult_1_l in H. replace (IZR n / 1) with (IZR n) in H by field.
+  apply H; lra.
+Qed.
+
+Lemma zd2_nonneg a b : (0 <= zd2 a b)%Z.
+Proof. apply le_IZR. rewrite zd2_sound. apply norm2_nonneg. Qed.
+
+Lemma zsum_sqrt_cons a b t :
+  zsum_sqrt (a :: b :: t)
+  = (Z.sqrt (zd2 a b * Zpos (zK * zK)) + fst (zsum_sqrt (b :: t)), 1 + snd (zsum_sqrt (b :: t)))%Z.
+Proof. reflexivity. Qed.
+
+Lemma zsum_sqrt_sound D : forall l, Forall (dvd_v D) l ->
+  let r := zsum_sqrt (map (qvscale_z D) l) in
+  IZR (fst r) / IZR (Zpos zK) / IZR (Zpos D) <= polylen (map q2v l)
+  <= (IZR (fst r) + IZR (snd r)) / IZR (Zpos zK) / IZR (Zpos D).
+Proof.
+  assert (HD : 0 < / IZR (Zpos D)) by (apply Rinv_0_lt_compat; apply IZR_lt; lia).
+  assert (Hk : 0 < / IZR (Zpos zK)) by (apply Rinv_0_lt_compat; apply IZR_lt; lia).
+  induction l as [|a [|b t] IH]; intros Hl.
+  - cbn. unfold Rdiv. rewrite !Rplus_0_l, !Rmult_0_l. lra.
+  - cbn. unfold Rdiv. rewrite !Rplus_0_l, !Rmult_0_l. lra.
+  - inversion Hl as [|? ? Ha Hl']; subst. inversion Hl' as [|? ? Hb _]; subst.
+    specialize (IH Hl'). cbv zeta in IH.
+    change (map (qvscale_z D) (a :: b :: t)) with (qvscale_z D a :: qvscale_z D b :: map (qvscale_z D) t).
+    change (map (qvscale_z D) (b :: t)) with (qvscale_z D b :: map (qvscale_z D) t) in IH.
+    change (map q2v (a :: b :: t)) with (q2v a :: q2v b :: map q2v t). rewrite polylen_cons2.
+    change (q2v b :: map q2v t) with (map q2v (b :: t)).
+    cbv zeta. rewrite zsum_sqrt_cons.
+    set (r := zsum_sqrt (qvscale_z D b :: map (qvscale_z D) t)) in *. cbn [fst snd].
+    rewrite (dist_scaled D a b Ha Hb).
+    pose proof (zsqrt_encl (zd2 (qvscale_z D a) (qvscale_z D b)) (zd2_nonneg _ _)) as He.
+    set (s := Z.sqrt (zd2 (qvscale_z D a) (qvscale_z D b) * Zpos (zK * zK))) in *.
+    set (x := sqrt (IZR (zd2 (qvscale_z D a) (qvscale_z D b)))) in *.
+    rewrite !plus_IZR. unfold Rdiv in *. destruct IH as [I1 I2]. destruct He as [E1 E2].
+    assert (E1' : IZR s * / IZR (Zpos zK) * / IZR (Zpos D) <= x * / IZR (Zpos D)) by (apply Rmult_le_compat_r; lra).
+    assert (E2' : x * / IZR (Zpos D) <= (IZR s + 1) * / IZR (Zpos zK) * / IZR (Zpos D)) by (apply Rmult_le_compat_r; lra).
+    split; lra.
+Qed.
+
+Lemma qpolylen_encl_cd_sound l :
+  Q2R (fst (qpolylen_encl_cd l)) <= polylen (map q2v l) <= Q2R (snd (qpolylen_encl_cd l)).
+Proof.
+  unfold qpolylen_encl_cd. cbv zeta. cbn [fst snd].
+  pose proof (zsum_sqrt_sound (qcommon_den l) l (qcommon_den_spec l)) as H. cbv zeta in H.
+  unfold Q2R. cbn [Qnum Qden]. rewrite Pos2Z.inj_mul, mult_IZR, plus_IZR.
+  assert (HD : 0 < IZR (Zpos (qcommon_den l))) by (apply IZR_lt; lia).
+  assert (Hk : 0 < IZR (Zpos zK)) by (apply IZR_lt; lia).
+  unfold Rdiv in H. rewrite Rinv_mult. destruct H as [H1 H2]. split.
+  - eapply Rle_trans; [|exact H1]. right. field. split; lra.
+  - eapply Rle_trans; [exact H2|]. right. field. split; lra.
+Qed.
+
+Lemma qlen_ok_cd_sound tol l L : qlen_ok_cd tol l L = true -> Rabs (polylen (map q2v l) - Q2R L) <= Q2R tol.
+Proof.
+  unfold qlen_ok_cd. cbv zeta. intros H. apply andb_prop in H. destruct H as [H H3].
+  apply andb_prop in H. destruct H as [_ H2].
+  apply Qle_bool_iff in H2. apply Qle_bool_iff in H3. apply Qle_Rle in H2. apply Qle_Rle in H3.
+  rewrite Q2R_minus in H2. rewrite Q2R_plus in H3.
+  pose proof (qpolylen_encl_cd_sound l). apply Rabs_le. lra.
+Qed.
+
+(** ** the exact optimum of the line curve *)
+Lemma Q2R_qdot a b : Q2R (qdot a b) = dot (q2v a) (q2v b).
+Proof.
+  destruct a as [[a1 a2] a3], b as [[b1 b2] b3]. unfold qdot, dot, q2v, qx, qy, qz, vx, vy, vz. simpl.
+  rewrite !Q2R_plus, !Q2R_mult. reflexivity.
+Qed.
+
+Lemma Q2R_qmin a b : Q2R (qmin a b) = Rmin (Q2R a) (Q2R b).
+Proof.
+  unfold qmin, Rmin. destruct (Qle_bool a b) eqn:E; destruct (Rle_dec (Q2R a) (Q2R b)) as [H|H]; try reflexivity.
+  - exfalso. apply H. apply Qle_Rle. apply Qle_bool_iff. exact E.
+  - apply Rle_Qle in H. apply Qle_bool_iff in H. congruence.
+Qed.
+
+Lemma Q2R_qmax a b : Q2R (qmax a b) = Rmax (Q2R a) (Q2R b).
+Proof.
+  unfold qmax, Rmax. destruct (Qle_bool a b) eqn:E; destruct (Rle_dec (Q2R a) (Q2R b)) as [H|H]; try reflexivity.
+  - exfalso. apply H. apply Qle_Rle. apply Qle_bool_iff. exact E.
+  - apply Rle_Qle in H. apply Qle_bool_iff in H. congruence.
+Qed.
+
+Lemma clamp_minmax lo hi x : lo <= hi -> clamp lo hi x = Rmax lo (Rmin hi x).
+Proof.
+  intros H. destruct (clamp_cases lo hi x H) as [[H1 ->]|[[H1 ->]|[H1 ->]]];
+    unfold Rmin; destruct (Rle_dec hi x); unfold Rmax; match goal with |- context [Rle_dec ?a ?b] => destruct (Rle_dec a b) end; lra.
+Qed.
+
+Lemma qline_topt_sound p1 p2 lo hi q : ~ (qn2 (qvsub p2 p1) == 0)%Q -> (lo <= hi)%Q ->
+  Q2R (qline_topt p1 p2 lo hi q) = line_topt (q2v p1) (q2v p2) (Q2R lo) (Q2R hi) (q2v q).
+Proof.
+  intros Hn Hl. unfold qline_topt, line_topt, qclamp. rewrite clamp_minmax by (apply Qle_Rle; exact Hl).
+  rewrite Q2R_qmax, Q2R_qmin, Q2R_div by exact Hn. unfold qn2, norm2. rewrite !Q2R_qdot, !q2v_sub. reflexivity.
 Qed.
